@@ -353,7 +353,7 @@ Section StepNf.
   Qed.
   Lemma ro_step_nf n w st bs : lt8 5 (S f) bs -> ro_step te R n w st bs <> Fuel.
   Proof.
-    intros L. unfold ro_step. destruct (te_lookup te n) as [gfields|]; [|discriminate]. cbv zeta.
+    intros L. unfold ro_step. destruct (te_lookup te n) as [gfields|]; [|discriminate]. destruct (has_dup (bound_names gfields w)); [discriminate|]. cbv zeta.
     apply bind_nf; [apply Nrfs; eapply lt8_down; [exact L|apply suffix_refl|lia]|]. intros [[fs r] st1] _. discriminate.
   Qed.
 
